@@ -18,7 +18,9 @@
                          framing; sync side = C12's NV.Io.Run *)
 From Coq Require Import List Arith NArith Bool.
 From NV Require Bgzf.Vpos Bgzf.Gzi Bgzf.ReaderOps Io.Sched Io.SchedProofs Async.Reader Async.ReaderProofs.
-From NV Require Async.Lines Async.LinesProofs Async.WriteAll Async.WriteAllProofs Fasta.Fastq.
+From NV Require Async.Lines Async.LinesProofs Async.WriteAll Async.WriteAllProofs Fasta.Fastq Io.HeaderRead.
+From NV Require Async.BcfFraming Async.BcfFramingProofs Trunc.Stream.
+From NV Require Async.Tab Async.TabProofs Io.TabRead Text.TextBase.
 From NV Require Async.PollSeek Async.PollSeekProofs.
 From NV Require Base.LE Bgzf.Crc32 Bgzf.Frame Bgzf.Writer Async.Writer Async.WriterProofs.
 From NV Require Io.Source Io.ReadExact Io.ReadExactProofs Io.Run Io.RunProofs Async.ReadExact Async.ReadExactProofs.
@@ -437,6 +439,43 @@ Theorem c16_async_fasta_sequence_fixed_equals_sync :
 Proof. exact async_fasta_sequence_fixed_equals_sync. Qed.
 Print Assumptions c16_async_fasta_sequence_fixed_equals_sync.
 
+(* the read_line helper of the async sam / vcf / fasta / fastq / gff readers (read_until(LF), pop LF,
+   pop CR; fasta read_definition and sam / vcf read_record_buf are this + the sync parser): byte
+   count + stripped line = the sync helper's, the source is left right after the line *)
+Theorem c16_async_read_line_closed :
+  forall cap codes data, 1 <= cap ->
+    exists st', read_line aread cap (ab_fuel (ab_start data codes)) (ab_start data codes)
+                = (length (take_line LF data), strip_eol (take_line LF data), UOk, st')
+      /\ ab_left st' = length data - length (take_line LF data).
+Proof. exact async_read_line_closed. Qed.
+Print Assumptions c16_async_read_line_closed.
+
+Theorem c16_async_read_line_equals_sync :
+  forall cap cap' codes sc data, 1 <= cap -> 1 <= cap' ->
+    fst (read_line aread cap (ab_fuel (ab_start data codes)) (ab_start data codes))
+    = fst (read_line src_read cap' (sb_fuel ([], mkSource data sc)) ([], mkSource data sc)).
+Proof. exact async_read_line_equals_sync. Qed.
+Print Assumptions c16_async_read_line_equals_sync.
+
+(* sam / vcf async header::Reader (the '@' / '#' adapter under header_reader() and read_header's
+   read_line loop): for every prefix, data, poll script and capacity the raw header lines are those of
+   the sync adapter under every delivery, and the reader stops at the same byte: the start of the
+   first line that does not begin with the prefix *)
+Theorem c16_async_header_lines_closed :
+  forall prefix cap codes data, 1 <= cap ->
+    async_header_case prefix cap codes data
+    = (fst (NV.Io.HeaderRead.hdr_closed (Datatypes.S (length data)) prefix data), UOk,
+       length data - length (snd (NV.Io.HeaderRead.hdr_closed (Datatypes.S (length data)) prefix data))).
+Proof. exact async_header_lines_closed. Qed.
+Print Assumptions c16_async_header_lines_closed.
+
+Theorem c16_async_header_lines_equal_sync :
+  forall prefix cap cap' codes sc data, 1 <= cap -> 1 <= cap' ->
+    fst (fst (async_header_case prefix cap codes data))
+    = fst (fst (fst (fst (run_header prefix cap' (mkSource data sc))))).
+Proof. exact async_header_lines_equal_sync. Qed.
+Print Assumptions c16_async_header_lines_equal_sync.
+
 (* non-vacuity: CR LF split over fills, a CR in mid-line, '>' in mid-line, a final CR; capacity 2,
    1-byte transfers with Pending polls *)
 Example c16_async_lines_example :
@@ -488,3 +527,98 @@ Example c16_write_all_example :
   = (WOk, [62; 115; 113; 48; 10; 65]%N, [(1, 1); (3, 2); (1, 1); (2, 2)]).
 Proof. vm_compute. reflexivity. Qed.
 End WL.
+
+(* ============================================================================================
+   Async BCF record framing (noodles-bcf async/io/reader/record.rs: read_exact_or_eof on l_shared,
+   read_u32_le on l_indiv, take(len).read_to_end for the site and the sample bytes, Fields::index in
+   between) over ANY poll script = C13's model of the sync framing (NV.Trunc.Stream.bcf_read_record,
+   source ending cleanly) on the data: model NV.Async.BcfFraming.
+   ============================================================================================ *)
+Module BF.
+Import NV.Io.Source NV.Async.ReadExact NV.Async.BcfFraming NV.Async.BcfFramingProofs.
+
+(* one record: same outcome (record bytes / clean end / UnexpectedEof / the indexer's error), and
+   after a record the reader stands where the sync reader stands *)
+Theorem c16_async_bcf_record_equals_sync :
+  forall polls req site_ok d,
+    exists s', a_bcf_read_record aread req site_ok a_fuel (mkASource d polls)
+               = (bres_of (NV.Trunc.Stream.bcf_read_record site_ok NV.Trunc.Stream.Eof d), s')
+      /\ match NV.Trunc.Stream.bcf_read_record site_ok NV.Trunc.Stream.Eof d with
+         | NV.Trunc.Stream.Item _ rest => a_data s' = rest
+         | NV.Trunc.Stream.Stop _ => True
+         end.
+Proof.
+  intros polls req site_ok d.
+  destruct (a_bcf_read_record_spec aread NV.Async.ReadExactProofs.rep_a NV.Async.ReadExactProofs.aread_simulates
+              req site_ok a_fuel NV.Async.ReadExactProofs.rep_a_fuel (mkASource d polls) d 0
+              (NV.Async.ReadExactProofs.rep_a_mk d polls)) as [s' [E H]].
+  exists s'. split; [exact E|].
+  destruct (NV.Trunc.Stream.bcf_read_record site_ok NV.Trunc.Stream.Eof d) as [x rest|st]; [|exact I].
+  destruct H as [m' [[Hd _] _]]. exact Hd.
+Qed.
+Print Assumptions c16_async_bcf_record_equals_sync.
+
+(* the whole stream: for every poll script, every read_to_end request size [req] and every site
+   indexer, the records and the ending are those of the sync framing *)
+Theorem c16_async_bcf_framing_equals_sync :
+  forall polls req site_ok data,
+    fst (a_bcf_read_records aread req site_ok a_fuel (Datatypes.S (length data)) (mkASource data polls))
+    = NV.Trunc.Stream.read_stream (NV.Trunc.Stream.bcf_read_record site_ok NV.Trunc.Stream.Eof) data.
+Proof. exact async_bcf_records_equal_sync. Qed.
+Print Assumptions c16_async_bcf_framing_equals_sync.
+
+(* non-vacuity: l_shared = 3, l_indiv = 2, then a second record cut inside its sample bytes *)
+Example c16_async_bcf_framing_example :
+  let data := [3; 0; 0; 0; 2; 0; 0; 0; 9; 9; 9; 8; 8; 1; 0; 0; 0; 4; 0; 0; 0; 7; 6]%N in
+  async_bcf_case [0; 2; 0; 3; 2; 2; 0; 0; 6] 3 data = (1, 1)%N /\ sync_bcf_case data = (1, 1)%N.
+Proof. vm_compute. split; reflexivity. Qed.
+End BF.
+
+(* ============================================================================================
+   The async lazy SAM / VCF record readers (read the whole line with read_until / read_line, then
+   run the SYNC field scanner over the line as a slice): model NV.Async.Tab.  The sync scanner never
+   looks past the first LF (w_sam_local / w_vcf_local), so line-then-scan = scan-on-the-source.
+   ============================================================================================ *)
+Module TB.
+Import NV.Io.Source NV.Io.BufReader NV.Io.TabRead NV.Io.Run.
+Import NV.Async.ReadExact NV.Async.Lines NV.Async.Tab NV.Async.TabProofs.
+
+(* C12's closed form of the sync lazy SAM reader depends on the first line only and leaves the
+   reader right after it -- for every input *)
+Theorem c16_sam_scanner_stays_in_line :
+  forall d,
+    w_sam_read_record d
+    = (fst (fst (fst (w_sam_read_record (take_line LF d)))), snd (fst (fst (w_sam_read_record (take_line LF d)))),
+       snd (fst (w_sam_read_record (take_line LF d))), skipn (length (take_line LF d)) d).
+Proof. exact w_sam_local. Qed.
+Print Assumptions c16_sam_scanner_stays_in_line.
+
+(* sam::async::io::Reader::read_record until Ok(0) / the first error: for EVERY data (short lines,
+   blank lines, CRs anywhere), poll script and capacities, every call returns the io result, record
+   buffer and field bounds the sync reader returns under every delivery script (the record left
+   behind by the final Ok(0) call is not compared: sync clears it, async does not touch it) *)
+Theorem c16_async_sam_lazy_records_equal_sync :
+  forall cap cap' codes sc data, 1 <= cap -> 1 <= cap' ->
+    map tab_norm (fst (a_run_sam_records cap (ab_start data codes)))
+    = map tab_norm (fst (run_sam_records cap' (mkSource data sc))).
+Proof. exact async_sam_records_equal_sync. Qed.
+Print Assumptions c16_async_sam_lazy_records_equal_sync.
+
+(* the same for vcf::async::io::Reader::read_record on ASCII data (with multi-byte characters the
+   SYNC reader itself depends on the delivery: C12's class vcf-record-field-utf8-split-capacity-
+   dependent, c12_vcf_read_record_refuted) *)
+Theorem c16_async_vcf_lazy_records_equal_sync :
+  forall cap cap' codes sc data, 1 <= cap -> 1 <= cap' -> ascii data = true ->
+    map tab_norm (fst (a_run_vcf_records cap (ab_start data codes)))
+    = map tab_norm (fst (run_vcf_records cap' (mkSource data sc))).
+Proof. exact async_vcf_records_equal_sync. Qed.
+Print Assumptions c16_async_vcf_lazy_records_equal_sync.
+
+(* non-vacuity: a full 11-field SAM line with CR LF, then a short line; 1-byte transfers, capacity 2 *)
+Example c16_async_sam_lazy_example :
+  let line := [113; 9; 52; 9; 42; 9; 48; 9; 48; 9; 42; 9; 42; 9; 48; 9; 48; 9; 65; 9; 73; 13; 10]%N in
+  let data := (line ++ [120; 9; 121; 10])%N in
+  map (fun x => fst (fst x)) (fst (a_run_sam_records 2 (ab_start data [2; 0; 2; 2; 0; 0; 2])))
+  = [NV.Text.TextBase.Ok 23; NV.Text.TextBase.Err NV.Text.TextBase.InvalidData].
+Proof. vm_compute. reflexivity. Qed.
+End TB.
